@@ -101,65 +101,88 @@ func renumberRows(rows []siteRow, norm func([]string) []string) []siteRow {
 		// exits (returns, panics) with the same value: where the source has one `return x` under `a || b` or two
 		// returns under `a` and `!a && b` is a matter of style; state them as one row with the disjunction
 		if len(g) > 1 && (strings.Contains(b, " returns (") || strings.Contains(b, " panics ")) {
-			plain := true
+			// every row as a disjunction of conjunctions (its literals, crossed with the alternatives of its OR{…}
+			// attributes); the union of all rows' alternatives, simplified, is the condition of the merged row
+			var all [][]string
+			okDNF := true
 			for _, e := range g {
-				for _, a := range out[e.idx].Attrs {
+				alts := [][]string{{}}
+				for _, a := range uniq(append([]string{}, out[e.idx].Attrs...)) {
 					if strings.HasPrefix(a, "OR{") {
-						plain = false
-					}
-				}
-			}
-			if plain {
-				cnt := map[string]int{}
-				for _, e := range g {
-					for _, a := range uniq(append([]string{}, out[e.idx].Attrs...)) {
-						cnt[a]++
-					}
-				}
-				var common []string
-				for a, n := range cnt {
-					if n == len(g) {
-						common = append(common, a)
-					}
-				}
-				sort.Strings(common)
-				var alts []string
-				var firstRest []string
-				trivial := false
-				for _, e := range g {
-					var rest []string
-					for _, a := range out[e.idx].Attrs {
-						if cnt[a] != len(g) {
-							rest = append(rest, a)
+						sub, ok := parseOR(a)
+						if !ok {
+							okDNF = false
+							break
+						}
+						var nx [][]string
+						for _, x := range alts {
+							for _, y := range sub {
+								nx = append(nx, append(append([]string{}, x...), y...))
+							}
+						}
+						alts = nx
+					} else {
+						for i := range alts {
+							alts[i] = append(alts[i], a)
 						}
 					}
-					sort.Strings(rest)
-					rest = uniq(rest)
-					if len(rest) == 0 {
+					if len(alts) > 32 {
+						okDNF = false
+						break
+					}
+				}
+				if !okDNF {
+					break
+				}
+				all = append(all, alts...)
+			}
+			if okDNF {
+				for i := range all {
+					sort.Strings(all[i])
+					all[i] = uniq(all[i])
+				}
+				all = absorbAlts(all)
+				trivial := len(all) == 0
+				for _, a := range all {
+					if len(a) == 0 {
 						trivial = true
 					}
-					if firstRest == nil {
-						firstRest = rest
+				}
+				var attrs []string
+				if !trivial {
+					cnt := map[string]int{}
+					for _, a := range all {
+						for _, l := range a {
+							cnt[l]++
+						}
 					}
-					alts = append(alts, "("+strings.Join(rest, " & ")+")")
-				}
-				sort.Strings(alts)
-				alts = uniq(alts)
-				// `a` or `not a` is no condition at all
-				altSet := map[string]bool{}
-				for _, a := range alts {
-					altSet[a] = true
-				}
-				for _, a := range alts {
-					if !strings.Contains(a, " & ") && len(a) > 2 && altSet["("+negGuard(a[1:len(a)-1])+")"] {
-						trivial = true
+					for l, n := range cnt {
+						if n == len(all) {
+							attrs = append(attrs, l)
+						}
 					}
-				}
-				attrs := common
-				if !trivial && len(alts) > 1 {
-					attrs = append(attrs, "OR{"+strings.Join(alts, " | ")+"}")
-				} else if !trivial && len(alts) == 1 {
-					attrs = append(attrs, firstRest...)
+					sort.Strings(attrs)
+					var rests []string
+					restTrivial := false
+					for _, a := range all {
+						var rest []string
+						for _, l := range a {
+							if cnt[l] != len(all) {
+								rest = append(rest, l)
+							}
+						}
+						if len(rest) == 0 {
+							restTrivial = true
+						}
+						rests = append(rests, "("+strings.Join(rest, " & ")+")")
+					}
+					sort.Strings(rests)
+					rests = uniq(rests)
+					if !restTrivial && len(rests) > 1 {
+						attrs = append(attrs, "OR{"+strings.Join(rests, " | ")+"}")
+					} else if !restTrivial && len(rests) == 1 {
+						attrs = append(attrs, strings.Split(rests[0][1:len(rests[0])-1], " & ")...)
+					}
 				}
 				out[g[0].idx].Key = b + "#1"
 				out[g[0].idx].Attrs = attrs
@@ -252,6 +275,76 @@ func diffSets(want, got []string) (miss, extra []string) {
 // several branch edges, the disjunction of the joining edges.
 func (c *Ctx) reachConds(b *ssa.BasicBlock) []string {
 	out := c.guardStrs(b)
+	if !useDomGuards && os.Getenv("FPCHECK_OLD_REACH") == "" {
+		// the conditions under which b is reached, as a disjunction of conjunctions: what every path has in common,
+		// and the alternatives in which the paths differ (simplified: x ∨ ¬x∧R = x ∨ R, supersets dropped)
+		if _, residual := pathGuards(b); len(residual) > 1 {
+			var alts [][]string
+			for _, set := range residual {
+				var lits []string
+				for _, g := range set {
+					lits = append(lits, c.guardStr(g))
+				}
+				sort.Strings(lits)
+				alts = append(alts, uniq(lits))
+			}
+			alts = absorbAlts(alts)
+			trivial := len(alts) <= 1
+			for _, a := range alts {
+				if len(a) == 0 {
+					trivial = true
+				}
+			}
+			if !trivial {
+				// literals that became common through simplification move out of the disjunction
+				cnt := map[string]int{}
+				for _, a := range alts {
+					for _, l := range a {
+						cnt[l]++
+					}
+				}
+				have := map[string]bool{}
+				for _, g := range out {
+					have[g] = true
+				}
+				var rests []string
+				restTrivial := false
+				for l, n := range cnt {
+					if n == len(alts) && !have[l] {
+						out = append(out, l)
+					}
+				}
+				for _, a := range alts {
+					var rest []string
+					for _, l := range a {
+						if cnt[l] != len(alts) {
+							rest = append(rest, l)
+						}
+					}
+					if len(rest) == 0 {
+						restTrivial = true
+					}
+					rests = append(rests, "("+strings.Join(rest, " & ")+")")
+				}
+				sort.Strings(rests)
+				rests = uniq(rests)
+				if !restTrivial && len(rests) > 1 {
+					out = append(out, "OR{"+strings.Join(rests, " | ")+"}")
+				}
+			} else if len(alts) == 1 {
+				have := map[string]bool{}
+				for _, g := range out {
+					have[g] = true
+				}
+				for _, l := range alts[0] {
+					if !have[l] {
+						out = append(out, l)
+					}
+				}
+			}
+		}
+		return out
+	}
 	if len(b.Preds) == 1 && !useDomGuards && branchesOnFlag(b.Preds[0]) {
 		// one incoming edge but several ways of getting there (the branch before it tested a flag that stands for a
 		// disjunction): the alternatives themselves
@@ -812,4 +905,63 @@ func isPureStdValueCall(n string) bool {
 		}
 	}
 	return false
+}
+
+
+// parseOR splits "OR{(a & b) | (c)}" into its alternatives and their literals (parenthesis-aware: literals contain
+// parentheses, " & " and " | " of their own).
+func parseOR(attr string) ([][]string, bool) {
+	if !strings.HasPrefix(attr, "OR{") || !strings.HasSuffix(attr, "}") {
+		return nil, false
+	}
+	body := attr[3 : len(attr)-1]
+	var out [][]string
+	i := 0
+	for i < len(body) {
+		if body[i] != '(' {
+			return nil, false
+		}
+		depth, j := 0, i
+		for ; j < len(body); j++ {
+			switch body[j] {
+			case '(', '[', '{':
+				depth++
+			case ')', ']', '}':
+				depth--
+			}
+			if depth == 0 {
+				break
+			}
+		}
+		if j >= len(body) {
+			return nil, false
+		}
+		group := body[i+1 : j]
+		var lits []string
+		d, from := 0, 0
+		for k := 0; k < len(group); k++ {
+			switch group[k] {
+			case '(', '[', '{':
+				d++
+			case ')', ']', '}':
+				d--
+			}
+			if d == 0 && strings.HasPrefix(group[k:], " & ") {
+				lits = append(lits, group[from:k])
+				from = k + 3
+				k += 2
+			}
+		}
+		if from <= len(group) && group[from:] != "" {
+			lits = append(lits, group[from:])
+		}
+		out = append(out, lits)
+		i = j + 1
+		if strings.HasPrefix(body[i:], " | ") {
+			i += 3
+		} else if i < len(body) {
+			return nil, false
+		}
+	}
+	return out, len(out) > 0
 }
